@@ -180,6 +180,11 @@ func (c *TCPConn) Read(b []byte) (int, error) {
 		err := opErr("read", "tcp", c.remote, ErrClosed)
 		W.log(c.id, "read", 0, nil, err)
 		return 0, err
+	case expired(c.rdl):
+		// a deadline that has passed fails the operation before anything else is looked at (poll.FD.Read)
+		err := opErr("read", "tcp", c.remote, os.ErrDeadlineExceeded)
+		W.log(c.id, "deadline", 0, nil, err)
+		return 0, err
 	case c.in.size > 0:
 		// queued data is delivered before a reset or an end of stream is reported
 		if len(b) == 0 {
@@ -240,6 +245,11 @@ func (c *TCPConn) Write(b []byte) (int, error) {
 	case c.closed:
 		err := opErr("write", "tcp", c.remote, ErrClosed)
 		W.log(c.id, "write", 0, nil, err)
+		return 0, err
+	case expired(c.wdl):
+		// a deadline that has passed fails the write at once, room in the buffer or not (poll.FD.Write)
+		err := opErr("write", "tcp", c.remote, os.ErrDeadlineExceeded)
+		W.log(c.id, "deadline", 0, nil, err)
 		return 0, err
 	case c.in.rst && !c.rstSeen:
 		// the peer aborted the connection: reported once, as a reset
